@@ -2,6 +2,7 @@ import Morlock.Proofs.BernsteinPlausible
 import Morlock.Proofs.BernsteinFlt
 import Morlock.Proofs.BernsteinCapture
 import Morlock.Proofs.BernsteinMirror
+import Morlock.Proofs.BernsteinPhantom
 import Morlock.Props.C20
 import Morlock.Proofs.BernsteinRnd
 /-!
@@ -16,7 +17,7 @@ Subjects (transcribed in `Model/Bernstein.lean`, `Model/EvalCapture.lean`, tied 
    a king; for `0 ≤ factor ≤ 10^4` both scores are `< 2^24` (the int→float32 conversions are exact) and the ratio is a finite float32.
 2. `plausible_sound`, `plausible_nonempty`, `plausible_complete_without_castling`, `table_within_limit`, `explore_pick_iff`.
 3. `findCapture_spec`, `findCapture_nodup`, `isSafe_spec`, and what `sort.SliceStable` guarantees (`sort_spec`).
-4. colour-blindness: `attack_queries_mirror`, `terms_mirror`, `evaluate_mirror`, `eval_mirror_partial` (section 4).
+4. colour-blindness: `attack_queries_mirror`, `terms_mirror`, `evaluate_mirror`, `evaluate_mirror_opp`, `eval_mirror` (section 4).
 
 No enumeration of positions anywhere; `WF`/`Rep` are the hypotheses of C01/C02.
 -/
@@ -319,16 +320,54 @@ theorem evaluate_mirror {p q : Position} {c : Color} (hp : WF p c) (hq : WF q c.
     evaluate q factor c.opp = evaluate p factor c :=
   Bernstein.evaluate_mirror hp hq habs factor
 
-/- **eval_mirror** (full statement, NOT proved):
-     theorem eval_mirror {p q : Position} {c : Color} (hp : WF p c) (hq : WF q c.opp)
-         (habs : abs q c.opp = Spec.mirror (abs p c)) (factor : Int) :
-         evalEvaluate q factor c.opp = evalEvaluate p factor c
-   Missing: the score of the side *not* to move when an en-passant target is set. `Mobility(pos, opponent)` then counts phantom
-   en-passant captures (`mobility_counts_phantom_en_passant`), the position is not `WF` for that colour, and C01 / the reference mirror
-   theorem do not apply; a proof would have to mirror the bitboard generator itself. Tested only (`hist` ops of stream `c20`). -/
+/-- **opponent_mobility_split.** What `Mobility(pos, opponent)` counts (every position, either colour `d`): the legal moves `d` has with
+    the en-passant target cleared, plus the generated en-passant captures of `d`'s pawns that `Position.Move` accepts. On a `WF`
+    position with a target (`opponent_mobility_phantoms`) the latter are exactly one phantom capture per pawn of the side that just
+    moved attacking the skipped square, if `Position.Move` accepts it. -/
+theorem opponent_mobility_split (p : Position) (d : Color) :
+    (p.legalMoves d).length = ((clearEp p).legalMoves d).length +
+      (((toSquares (p.pieces d .pawn)).flatMap (epPart p d)).filter fun m => (p.move m).isSome).length :=
+  legalMoves_length_split p d
 
-/-- **eval_mirror_partial.** `Eval.Evaluate` (the float32 ratio) is colour-blind for positions that are `WF` for both colours, i.e.
-    without an en-passant target (the side to move's own score is colour-blind in any case: `evaluate_mirror`). -/
+theorem opponent_mobility_phantoms {p : Position} {c : Color} (hw : WF p c) (h0 : p.enpassant ≠ 0) :
+    mobility p c.opp = mobility (clearEp p) c.opp +
+      ((toSquares (p.pieces c.opp .pawn)).countP fun fr =>
+        decide (p.enpassant ∈ Spec.pawnTargets (absColor c.opp) fr) &&
+          (p.move { ty := .enPassant, «from» := fr, to := p.enpassant, piece := .pawn }).isSome : Nat) := by
+  obtain ⟨hlt, hempty, _, _⟩ := (wfb_of_wfc hw.1 hw.2).ep_ok h0
+  unfold mobility
+  rw [legalMoves_length_split, phantoms_length hw.1 c.opp h0 hlt hempty]
+  rfl
+
+/-- In `phantomPos` the split is 7 + 1. -/
+example : mobility (clearEp phantomPos) .black = 7 ∧ phantomCount phantomPos .black = 1 := by decide +kernel
+
+/-- **mobility_mirror_opp / evaluate_mirror_opp.** The score of the side NOT to move is colour-blind too, en-passant target or not: the
+    phantom captures of the mirror image are the mirror images of the phantom captures, and the legality test `Position.Move` applies to
+    them — on a position that represents no board — gives the same answer (`Proofs/BernsteinBitMir.lean`: a bit-level mirror relation
+    that the attack queries respect). -/
+theorem mobility_mirror_opp {p q : Position} {c : Color} (hp : WF p c) (hq : WF q c.opp)
+    (habs : abs q c.opp = Spec.mirror (abs p c)) : mobility q c = mobility p c.opp :=
+  Bernstein.mobility_mirror_opp hp hq habs
+
+theorem evaluate_mirror_opp {p q : Position} {c : Color} (hp : WF p c) (hq : WF q c.opp)
+    (habs : abs q c.opp = Spec.mirror (abs p c)) (factor : Int) :
+    evaluate q factor c = evaluate p factor c.opp :=
+  Bernstein.evaluate_mirror_opp hp hq habs factor
+
+/-- **eval_mirror.** `Eval.Evaluate` is colour-blind: for `WF` positions `p` (`c` to move) and `q` (`c.opp` to move) such that `q`
+    abstracts to the colour-swapped mirror image of `p`, the engine returns the same float32 (or panics in both) — every factor, with or
+    without an en-passant target. -/
+theorem eval_mirror {p q : Position} {c : Color} (hp : WF p c) (hq : WF q c.opp)
+    (habs : abs q c.opp = Spec.mirror (abs p c)) (factor : Int) :
+    evalEvaluate q factor c.opp = evalEvaluate p factor c :=
+  evalEvaluate_mirror_full hp hq habs factor
+
+/-- `exPos` / `exPosB` have an en-passant target (d6 / d3). -/
+example (factor : Int) : evalEvaluate exPosB factor .black = evalEvaluate exPos factor .white :=
+  eval_mirror (c := .white) exPos_wf.1 exPos_wf.2 C20.exPosB_is_mirror factor
+
+/-- **eval_mirror_partial** (kept; superseded by `eval_mirror`). The case without an en-passant target, directly from C01. -/
 theorem eval_mirror_partial {p q : Position} {c : Color} (hp : WF p c) (hq : WF q c.opp) (hp' : WF p c.opp) (hq' : WF q c)
     (habs : abs q c.opp = Spec.mirror (abs p c)) (habs' : abs q c = Spec.mirror (abs p c.opp)) (factor : Int) :
     evalEvaluate q factor c.opp = evalEvaluate p factor c :=
@@ -363,5 +402,53 @@ example (factor : Int) : evalEvaluate kiwiPosB factor .black = evalEvaluate kiwi
   eval_mirror_partial (c := .white) kiwiPos_wf.1 kiwiPosB_wf.2 kiwiPos_wf.2 kiwiPosB_wf.1 kiwiPosB_is_mirror.1 kiwiPosB_is_mirror.2 factor
 
 example : evaluate kiwiPosB 8 .black = some 381 ∧ evaluate kiwiPosB 8 .white = some 375 := by decide +kernel
+
+/-! ## 5. Observations on record (kernel-checked; not violations of a stated property) -/
+
+/-- `8/P7/1n6/7k/8/8/8/R3K3 w`: a7-a8=Q onto a square attacked by the knight b6 and defended by the rook a1. -/
+def obsPromoPos : Position :=
+  (Position.newPosition [(3, .white, .king), (7, .white, .rook), (55, .white, .pawn), (46, .black, .knight), (32, .black, .king)] 0 0).getD {}
+def obsPromoMove : Move := { ty := .promotion, «from» := 55, to := 63, piece := .pawn, promotion := .queen }
+
+/-- **obs_isMoveSafe_promotion_judged_as_pawn.** `IsMoveSafe` passes `move.Piece` (the pawn, value 1) to `IsSafe`, not the piece that
+    stands on the square afterwards: the promotion a7-a8=Q, which loses the new queen for a knight, is "safe" (an attacker worth 3 ≥ 1 and
+    the square is defended), although `IsSafe` of the queen on a8 in the resulting position is false. (`gain` ranks every promotion 23
+    anyway, so the plausible list starts with it.) -/
+theorem obs_isMoveSafe_promotion_judged_as_pawn :
+    obsPromoMove ∈ obsPromoPos.legalMoves .white ∧
+    isMoveSafe obsPromoPos .white obsPromoMove = true ∧
+    (obsPromoPos.move obsPromoMove).map (fun next => isSafe next .white .queen 63) = some false ∧
+    (obsPromoPos.move obsPromoMove).map (fun next => isSafe next .white .pawn 63) = some true ∧
+    (findPlausibleMoves obsPromoPos .white).head? = some obsPromoMove := by
+  decide +kernel
+
+theorem ta1_to_only (side : Color) (m : Move) : ta1 side m = ta1 side { to := m.to } := by cases side <;> rfl
+
+theorem obs_ta1_all : Proofs.Attack.allBelow 64 (fun t =>
+    decide (ta1 .white { to := t } = (t : Int)) && decide (ta1 .black { to := t } = 72 - (t : Int))) = true := by
+  decide +kernel
+
+/-- **obs_ta1_black_is_72_minus_sq.** For White `TA1` is the square number (`8·rank + file`, h-file = 0); for Black it is `72 − sq`
+    (`(8−rank)·8 + (8−file)`): the *point reflection* `63 − sq` plus 9, not the colour mirror `8·(7−rank) + file`. -/
+theorem obs_ta1_black_is_72_minus_sq (m : Move) (h : m.to < 64) :
+    ta1 .white m = (m.to : Int) ∧ ta1 .black m = 72 - (m.to : Int) ∧
+    ta1 .black m = ta1 .white { to := 63 - m.to } + 9 := by
+  have := Proofs.Attack.allBelow_spec obs_ta1_all m.to h
+  simp only [Bool.and_eq_true, decide_eq_true_eq] at this
+  have h63 := Proofs.Attack.allBelow_spec obs_ta1_all (63 - m.to) (by omega)
+  simp only [Bool.and_eq_true, decide_eq_true_eq] at h63
+  rw [ta1_to_only .white m, ta1_to_only .black m]
+  refine ⟨this.1, this.2, ?_⟩
+  rw [this.2, h63.1]
+  omega
+
+/-- **obs_plausible_order_not_colour_blind.** Consequence: the *order* of the plausible moves (hence the table cut at `limit`) is not
+    colour-blind — Black scans the files the other way round. Initial position: White's first four plausible moves go to a3, c3, f3, h3
+    (23, 21, 18, 16); Black's, were it to move, to h6, f6, c6, a6 (40, 42, 45, 47) — the mirror images of White's would be a6, c6, f6, h6. -/
+theorem obs_plausible_order_not_colour_blind :
+    ((findPlausibleMoves startPos .white).map (·.to)).take 4 = [23, 21, 18, 16] ∧
+    ((findPlausibleMoves startPos .black).map (·.to)).take 4 = [40, 42, 45, 47] ∧
+    [23, 21, 18, 16].map Spec.mirrorSq = [47, 45, 42, 40] := by
+  decide +kernel
 
 end Morlock.Props.C20Bernstein
